@@ -68,7 +68,11 @@ def s1_loop_table(ctx):
         ctx.holds('C14.S1', 'event-loop decision table agrees with the oracle on all %d valuations' % len(table), fn.site())
     ctx.sample({'rule': 'C14.S1', 'valuations': len(table), 'example': {'valuation': table[5][0], 'actions': [a for a, _ in table[5][1][0][0]]}})
     # qts receives the session's stats collector, whose allocations become target_allocations
-    ps = summarise(ctx, RUN, policy=no_inline)
+    def own_steps(caller, callee, depth):
+        # the session's own private steps of the loop (helpers the run is split into) belong to the run; the sampler and the schedule test stay calls
+        return depth <= 4 and callee.cls is not None and callee.cls.name in ('BacktestTradingSession', 'TradingSession') and callee.name.startswith('_') \
+            and not callee.name.startswith('__') and callee.name not in ('_update_equity_curve', '_is_rebalance_event')
+    ps = summarise(ctx, RUN, policy=own_steps)
     for p in normal(ps):
         for e, loops, conds in nested_events(p):
             if e.kind == 'call' and 'QuantTradingSystem.__call__' in e.callee:
@@ -89,12 +93,16 @@ def s2_who_may_trade(ctx):
     chain = [('submit_order', {'ExecutionHandler.__call__'}), ('execution_handler', None)]
     for fn, n in calls_named(M, 'submit_order'):
         ctx.require(fn.qn == 'ExecutionHandler.__call__', 'C14.S2', 'orders are submitted only by the execution handler (%s)' % fn.qn, fn.site(n), key='C14.S2|submit|%s' % fn.qn)
+    from ..lib import private_closure
     for callee, allowed in (('ExecutionHandler.__call__', {'QuantTradingSystem.__call__'}), ('QuantTradingSystem.__call__', {RUN}),
                             ('PortfolioConstructionModel.__call__', {'QuantTradingSystem.__call__'})):
+        # a private step that only the allowed caller uses is part of that caller
+        allowed = set(allowed) | private_closure(M, set(allowed))
         sites = M.call_sites(callee)
         ctx.floor('C14.S2', 'call sites of %s' % callee, len(sites), 1)
         for fn, n in sites:
-            ctx.require(fn.qn in allowed, 'C14.S2', '%s is invoked only from %s (%s)' % (callee, sorted(allowed)[0], fn.qn), fn.site(n), key='C14.S2|caller|%s|%s' % (callee, fn.qn))
+            ctx.require(fn.qn in allowed, 'C14.S2', '%s is invoked only from %s (%s)' % (callee, sorted(allowed, key=lambda q: (q.rsplit('.', 1)[-1].startswith('_') and not q.endswith('__'), q))[0], fn.qn),
+                        fn.site(n), key='C14.S2|caller|%s|%s' % (callee, fn.qn))
     # nothing else reaches the broker's mutating API during a run
     for name, allowed in (('subscribe_funds_to_portfolio', {'BacktestTradingSession._create_broker'}), ('withdraw_funds_from_portfolio', set()),
                           ('create_portfolio', {'BacktestTradingSession._create_broker'})):
@@ -146,8 +154,10 @@ def s5_outputs(ctx):
     for w in writers_of_attr(ctx.M, 'equity_curve', owner='BacktestTradingSession'):
         ok = w.fn.qn in ('BacktestTradingSession.__init__', qn)
         ctx.require(ok, 'C14.S5', 'the equity curve is written only by the per-close sampler (%s)' % w.fn.qn, w.where, key='C14.S5|equity-writer|%s' % w.fn.qn)
+    from ..lib import private_closure
+    run_steps = private_closure(ctx.M, {RUN})
     for fn, n in calls_named(ctx.M, '_update_equity_curve'):
-        ctx.require(fn.qn == RUN, 'C14.S5', 'the equity sampler is called only from the event loop', fn.site(n), key='C14.S5|equity-caller|%s' % fn.qn)
+        ctx.require(fn.qn in run_steps, 'C14.S5', 'the equity sampler is called only from the event loop', fn.site(n), key='C14.S5|equity-caller|%s' % fn.qn)
     # allocation table
     qn = 'BacktestTradingSession.get_target_allocations'
     fn = ctx.fn(qn)
@@ -161,6 +171,15 @@ def s5_outputs(ctx):
             if fmt(c) == 'self.burn_in_dt is None':
                 burn = not v
         if burn is None:
+            # a table located by binary search: "the latest rebalance at or before the date" is position bisect_right(dates, d) - 1;
+            # bisect_left(dates, d) - 1 is the latest rebalance strictly before d and misses one made on d itself
+            subs = list(T.subterms(p.value))
+            left = [s for s in subs if s[0] == 'call' and s[1][0] == 'ext' and s[1][1] in ('bisect.bisect_left',) and len(s[2]) == 2]
+            strict = [s for s in left if any(z[0] == 'rat' and T.teq(z, T.t_sub(s, num(1))) for z in subs)]
+            if strict:
+                ctx.violation('C14.S5', 'each date carries forward the weights of the latest rebalance at or before it', fn.site(),
+                              'row located at %s - 1: a rebalance dated on the equity date itself is not counted' % fmt(strict[0])[:100], key='C14.S5|alloc-latest')
+                continue
             ctx.undecided('C14.S5', 'the allocation table branches on burn-in only', fn.site(), cond_str(p)[:160])
             continue
         seen.add(burn)
@@ -183,7 +202,8 @@ def s5_outputs(ctx):
             ctx.require(ok, 'C14.S5', 'the table is cut at the burn-in date', fn.site(), fmt(p.value)[-80:], key='C14.S5|alloc-cut')
         else:
             ctx.require(T.teq(p.value, rx[0]), 'C14.S5', 'without burn-in the whole table is returned', fn.site(), key='C14.S5|alloc-whole')
-    ctx.require(seen == {True, False}, 'C14.S5', 'allocation table handles both burn-in cases', fn.site(), sorted(seen), key='C14.S5|alloc-cases')
+    if seen:
+        ctx.require(seen == {True, False}, 'C14.S5', 'allocation table handles both burn-in cases', fn.site(), sorted(seen), key='C14.S5|alloc-cases')
     # one record per construction call
     qn = 'PortfolioConstructionModel.__call__'
     fn = ctx.fn(qn)
